@@ -96,6 +96,7 @@ def check(ctx):
     from . import tablefmt as _tf
     _tf.check_filter_offsets(ctx)   # a filter consulted by a lookup holds every key of its block and is probed as built
     c01.check_compaction_drop(ctx)
+    _tf.check_read_options_forwarded(ctx)   # the caller's read options (they carry the snapshot) reach the lookup unchanged
     check_iter_filter(ctx)
     check_snapshot_list(ctx)
     c08.check_readers(ctx)
